@@ -251,3 +251,35 @@ Fixpoint held_atoms (a : nat) (info : list oinfo) : Z :=
 
 Definition acct_check (m : mstate) : bool :=
   forallb (fun a => (nth a (m_atoms m) 0%Z =? held_atoms a (m_info m))%Z) (seq 0 (length (m_atoms m))).
+
+(* ---- multiple time steps: the dependency part of colvarmodule::calc_colvars.  For every bias, then every variable, with
+        timeStepFactor tsf > 1 (feature 1 is `awake` in both classes, static, requires_self `active`):
+          step % tsf == 0 :  enable(awake)
+          otherwise       :  if active and not awake: enable(awake)  (so that the disable below releases a reference);
+                             disable(awake)        -- drops the reference on `active`: the object falls asleep when that was the last *)
+Section Sched.
+  Variable T : tables.
+
+  Definition after_op (n : nat) (p : op) (s : state) : option state :=
+    match run_op T n p s with None => None | Some (_, s') => Some s' end.
+
+  Definition sched_one (n : nat) (step : nat) (ot : nat * nat) (s : state) : option state :=
+    let '(o, tsf) := ot in
+    if 1 <? tsf then
+      if step mod tsf =? 0 then after_op n (OpEnable o 1 false true false) s
+      else
+        match (if is_enabled s o 0 && negb (is_enabled s o 1) then after_op n (OpEnable o 1 false true false) s else Some s) with
+        | None => None
+        | Some s1 => after_op n (OpDisable o 1) s1
+        end
+    else Some s.
+
+  Fixpoint sched (n : nat) (step : nat) (ots : list (nat * nat)) (s : state) : option state :=
+    match ots with
+    | [] => Some s
+    | ot :: r => match sched_one n step ot s with None => None | Some s1 => sched n step r s1 end
+    end.
+
+  Definition m_sched (n : nat) (step : nat) (ots : list (nat * nat)) (m : mstate) : option mstate :=
+    match sched n step ots (m_objs m) with None => None | Some s => Some (mkM s (m_info m) (m_atoms m)) end.
+End Sched.
